@@ -27,13 +27,24 @@ def mc_runs(ctx, which):
                 ("tcp+ws", dict(TWO, Limits="<- LimSmall", MaxCid=3)), ("tcp+ws-n", dict(TWO, Limits="<- LimNone", MaxCid=3)),
                 ("tcp+ws-b", dict(TWO, AddrsOf="<- AddrsTwoTr2", Limits="<- LimNone", MaxCid=3))]
     out = []
+    # C06 also checks, on every transition of the bound model, that it is a step of the counter abstraction
+    # ConnCaps.tla (whose invariant Apalache proves inductive) and that the inductive invariant holds
+    # (the action property roughly triples TLC's time per state: the quick tier checks it on the two-transport
+    # configurations and on a dedicated MaxCid=2 run over every limit set, the thorough tier on every run)
+    extra = ["INVARIANT CapsInd", "PROPERTY CapsRefinement"] if which == "C06" else []
+    if which == "C06" and ctx.quick():
+        runs = runs + [("caps-ref-small", dict(BASE, Limits="<- LimSmall", MaxCid=2, AddrsOf="<- AddrsDef")),
+                       ("caps-ref-mixed", dict(BASE, Limits="<- LimMixed", MaxCid=2)),
+                       ("caps-ref-in3", dict(BASE, Limits="<- LimIn3", MaxCid=3))]
     for name, consts in runs:
-        r = tlc_mc(ctx, "ConnMgrMC.tla", write_cfg(ctx, "mc_%s.cfg" % name, consts, ["SPECIFICATION Spec"] + MC_INV),
+        ex = extra if (not ctx.quick() or name.startswith(("caps-ref", "two2"))) else []
+        r = tlc_mc(ctx, "ConnMgrMC.tla", write_cfg(ctx, "mc_%s.cfg" % name, consts, ["SPECIFICATION Spec"] + MC_INV + ex),
                    workers=10, timeout=3000)
+        r["refinement_checked"] = bool(ex)
         if not r["ok"]:
             raise ToolError("ConnMgrMC violates an invariant outside the tagged known-defect paths in config %s; "
                             "the model must be corrected or the counterexample replayed:\n%s" % (name, r.get("error", r["out"][-3000:])))
-        out.append({k: r[k] for k in ("cfg", "transitions", "distinct", "depth", "wall_s") if k in r})
+        out.append({k: r[k] for k in ("cfg", "transitions", "distinct", "depth", "wall_s", "refinement_checked") if k in r})
         out[-1]["cfg"] = name
         log("MC %s: %s" % (name, out[-1]))
     return out
